@@ -59,7 +59,11 @@ def env():
         tw = twin.Twins(rt)
         front = tw.twin(tsc.tsc_parallel)
         kname = stripe_kernel_name(tsc)
-        _T = dict(rt=rt, tw=tw, front=front, par=tw.twin(getattr(tsc, kname)), kname=kname, tsc=tsc, twin=twin)
+        kfn = getattr(tsc, kname)
+        import inspect as _insp
+        # the direct kernel drivers (por_run, schedule exploration) assume one six-parameter call is the whole deposit
+        direct_ok = len(_insp.signature(getattr(kfn, 'py_func', kfn)).parameters) == 6
+        _T = dict(rt=rt, tw=tw, front=front, par=tw.twin(getattr(tsc, kname)), kname=kname, tsc=tsc, twin=twin, direct_ok=direct_ok)
     return _T
 
 
@@ -71,6 +75,7 @@ def stripe_kernel_name(tsc):
     fn = getattr(fn, 'py_func', fn)
     grid = list(inspect.signature(fn).parameters)[1]
     tree = ast.parse(textwrap.dedent(inspect.getsource(fn)))
+    cands = []
     for node in ast.walk(tree):
         if isinstance(node, ast.Call) and isinstance(node.func, ast.Name):
             tgt = getattr(tsc, node.func.id, None)
@@ -78,7 +83,9 @@ def stripe_kernel_name(tsc):
                 continue
             names = [a.id for a in list(node.args) + [k.value for k in node.keywords] if isinstance(a, ast.Name)]
             if grid in names:
-                return node.func.id
+                cands.append((len(node.args) + len(node.keywords), node.func.id))
+    if cands:
+        return max(cands)[1]      # the call that is handed the most (particles, offsets, grid, box, weights, offset), wherever it is nested
     return '_tsc_parallel'      # (AttributeError in the driver -> stale, if that is gone too)
 
 
@@ -121,6 +128,10 @@ def front_decision(n1d, coord, nthread, npart, orient=0, wrap=False):
     except ValueError as e:
         return 'reject', str(e)
     except Exception as e:
+        from vf import core
+        st = core.stale_reason(e)
+        if st or type(e).__name__ == 'TwinError':
+            raise core.Stale(st or f'TwinError: {e}')
         return 'error', f'{type(e).__name__}: {e}'
     return 'accept', (cap.get('np'), cap.get('threads'))
 
@@ -222,7 +233,7 @@ def run_config(case):
     ncalls = 0
     accepted = {}
     default_np = {}
-    unknown = differs = thread_differs = front_runs = 0
+    unknown = differs = thread_differs = front_runs = direct_skipped = 0
     for nthread in NTHREADS:
         for npart in [None] + list(range(1, n1d + 1)):
             verdict, info = front_decision(n1d, coord, nthread, npart)
@@ -259,9 +270,13 @@ def run_config(case):
                     default_np[nthread] = info
     states = trans = 0
     pairs_total = 0
+    direct = env()['direct_ok']
     for npart in sorted(accepted):
         for dtype in (np.float32, np.float64):
             for off in (0.0, 0.5):
+                if not direct:
+                    direct_skipped += 1      # only the end-to-end run below decides
+                    continue
                 conflicts, pairs, rel, nparts, fps, _ = por_run(n1d, npart, coord, dtype, off)
                 pairs_total += pairs
                 states += nparts
@@ -305,7 +320,7 @@ def run_config(case):
         nt.append((n1d, npart, coord))
     return dict(problems=probs, evals=ncalls, nt=nt, states=max(states, 1), transitions=max(trans, 1), traces=0,
                 extra=dict(front_end_calls=ncalls, stripe_pairs_checked=pairs_total, accepted_multistripe_configs=len(accepted),
-                           accepted_without_stripe_kernel=unknown, front_end_por_runs=front_runs, ran_with_other_stripe_count=differs, ran_with_other_thread_count=thread_differs),
+                           accepted_without_stripe_kernel=unknown, front_end_por_runs=front_runs, direct_kernel_runs_skipped_driver_stale=direct_skipped, ran_with_other_stripe_count=differs, ran_with_other_thread_count=thread_differs),
                 sample=dict(n1d=n1d, coord=coord, defaults=default_np, accepted_npartitions=sorted(accepted)) if n1d in (8, 24) and coord == 0 else None)
 
 
@@ -474,6 +489,9 @@ def run_conformance(case):
 
 
 def run(case):
+    if case['kind'] in ('seeded', 'sched', 'sched-unreduced') and not env()['direct_ok']:
+        from vf import core
+        raise core.Stale(f"{env()['kname']} no longer has the six-parameter form the direct kernel drivers assume (one call = the whole deposit); the end-to-end front-end runs still decide")
     return {'seeded': run_seeded, 'config': run_config, 'sched': run_sched, 'sched-unreduced': run_unreduced, 'conformance': run_conformance}[case['kind']](case)
 
 
